@@ -72,7 +72,14 @@ pub fn worker_main(engine: &dyn CaseEngine, args: &Args) {
     for case in (0..n).filter(|c| c % of == shard && *c >= from) {
         emit(&format!("S {case}"));
         let progress = |s: &str| emit(&format!("P {s}"));
-        engine.run_case(args, case, &mut rep, &progress);
+        if let Err(p) = crate::panicmon::catch(|| engine.run_case(args, case, &mut rep, &progress)) {
+            // a panic that escaped the engine's own monitors (in agdb or in the harness)
+            rep.violation(
+                &format!("{}:{}", engine.property(), p.signature()),
+                &format!("panic outside the engine's monitors in case {case}: {} at {}:{}", p.message, p.file, p.line),
+                json!({"engine": args.pos.first(), "case": case, "seed": args.u64("seed", 1), "tier": args.str("tier", "quick")}),
+            );
+        }
         emit(&format!("E {case}"));
         since += 1;
         if since >= 64 || last_flush.elapsed() > Duration::from_secs(5) {
